@@ -170,6 +170,10 @@ func init() {
 						if w.twin != nil {
 							pool = append(pool, *w.twin)
 						}
+						// aliases: other voxels whose x, y (and f) numbers coincide with the root's at a different
+						// zoom — a shortcut keyed on the numbers without the zoom confuses them
+						pool = append(pool, ref.Vox{H: w.root.H + 1, X: w.root.X, Y: w.root.Y, V: w.root.V, F: w.root.F},
+							ref.Vox{H: w.root.H + 1, X: w.root.X, Y: w.root.Y, V: w.root.V + 1, F: w.root.F})
 						n := c.In("len", 3) + 1
 						var list []ref.Vox
 						for i := 0; i < n; i++ {
